@@ -42,6 +42,7 @@ Decompress(t) == IF t <= 255 THEN t
 \* ----- Compile: text expression -> opcode list (as the parser does) -------------
 OpBool(op, endIdx) == endIdx + (CASE op = "or" -> OR_VAL [] op = "and" -> AND_VAL [] op = "not" -> NOT_VAL)
 
+PatchEnd(body, ph, op) == [body EXCEPT ![ph] = OpBool(op, Len(body))]
 RECURSIVE CompileInto(_, _)
 RECURSIVE CompileArgs(_, _)
 \* appends the opcodes of e to ops (0-based end index = Len)
@@ -55,9 +56,9 @@ CompileInto(e, ops) ==
     [] e.k = "layer" -> ops \o <<LAYER_VAL, e.l>>
     [] e.k = "baselayer" -> ops \o <<BASE_LAYER_VAL, e.l>>
     [] e.k \in {"or", "and", "not"} ->
-         LET ph == Len(ops) + 1                      \* placeholder position (1-based)
-             body == CompileArgs(e.args, Append(ops, 0))
-         IN [body EXCEPT ![ph] = OpBool(e.k, Len(body))]
+         \* placeholder at the 1-based position Len(ops) + 1, back-patched with the end index
+         \* (TLC note: no LET here -- a LET in a recursive operator is re-evaluated at every use)
+         PatchEnd(CompileArgs(e.args, Append(ops, 0)), Len(ops) + 1, e.k)
 CompileArgs(args, ops) ==
   IF args = <<>> THEN ops ELSE CompileArgs(Tail(args), CompileInto(Head(args), ops))
 
@@ -65,13 +66,13 @@ CompileArgs(args, ops) ==
 Compile(exprs) == CompileArgs(exprs, <<>>)
 
 \* ----- Run: the evaluator as a pc machine ----------------------------------------
-Nth(s, n) == IF n + 1 \in DOMAIN s THEN <<s[n + 1]>> ELSE <<>>   \* iterator.nth(n), 0-based
+Nth(s, n) == IF n + 1 <= Len(s) THEN <<s[n + 1]>> ELSE <<>>   \* iterator.nth(n), 0-based
 
 \* decoded opcode at 0-based index i; `next` is ops[i+1] if present.
 \* returns [ty, ...]; ty = "expectpanic" when the second word is missing (`expect`)
 Decode(ops, i) ==
   LET w == ops[i + 1]
-      hasNext == i + 2 \in DOMAIN ops
+      hasNext == i + 2 <= Len(ops)     \* (not `\in DOMAIN ops`: TLC would build the set at every step)
       n == IF hasNext THEN ops[i + 2] ELSE 0
   IN IF w < SW_KEY_MAX THEN [ty |-> "key", kc |-> w]
      ELSE IF w <= MAX_OPCODE_LEN
@@ -110,41 +111,57 @@ IsTwoWord(d) == d.ty \in {"input", "inputhist", "layer", "baselayer"}
 
 \* machine state: [pc (0-based), endIdx, op, ret, stack : Seq([op, idx]), fault]
 \* One call of Step = one iteration of `while current_index < bool_expr.len()`.
-RECURSIVE RunM(_, _, _, _)
-RunM(ops, env, m, fuel) ==
-  IF m.fault # "" THEN m
-  ELSE IF fuel = 0 THEN [m EXCEPT !.fault = "nontermination"]
-  ELSE IF m.pc >= Len(ops) THEN m
-  ELSE
+\* `v` selects the evaluator variant: "code" = the code as it is; "fixed" = the code with the
+\* proposed one-line repair of the C10 finding "not-nested-last" (a popped `not` whose last operand was a nested list
+\* must negate, not clear, the result); the others are seeded design errors (DESIGN 3.4) that the
+\* check must reject: "m_le" (key-timing lt compares with <), "m_unwind" (final unwinding loop
+\* does not negate), "m_nojump" (`not` does not stop at the first true operand).
+\* One loop iteration (TLC note: the LETs live in this non-recursive operator; a LET inside the
+\* recursive operator itself makes TLC re-evaluate the whole chain of earlier states at each step).
+StepX(ops, env, m, v) ==
     \* pop phase
-    LET needPop == m.pc >= m.endIdx IN
-    IF needPop /\ m.stack = <<>> THEN m      \* `None => break`
-    ELSE
-      LET m1 == IF needPop
-                THEN LET top == m.stack[Len(m.stack)] IN
-                     [m EXCEPT !.op = top.op, !.endIdx = top.idx,
-                               !.stack = SubSeq(m.stack, 1, Len(m.stack) - 1)]
-                ELSE m
-          shortc == needPop /\ ( (m1.ret /\ m1.op \in {"or", "not"}) \/ (~m1.ret /\ m1.op = "and")
-                                 \/ m1.pc >= m1.endIdx )
-      IN IF shortc
-         THEN RunM(ops, env, [m1 EXCEPT !.ret = IF m1.op = "not" THEN FALSE ELSE @,
-                                         !.pc = m1.endIdx], fuel - 1)
+    LET needPop == m.pc >= m.endIdx
+        m1 == IF needPop
+              THEN LET top == m.stack[Len(m.stack)] IN
+                   [m EXCEPT !.op = top.op, !.endIdx = top.idx,
+                             !.stack = SubSeq(m.stack, 1, Len(m.stack) - 1)]
+              ELSE m
+        shortc == needPop /\ ( (m1.ret /\ m1.op \in {"or", "not"}) \/ (~m1.ret /\ m1.op = "and")
+                               \/ m1.pc >= m1.endIdx )
+    IN IF shortc
+       THEN [m1 EXCEPT !.ret = IF m1.op = "not" THEN (IF v = "fixed" THEN ~m1.ret ELSE FALSE) ELSE @,
+                       !.pc = m1.endIdx, !.steps = @ + 1]
+       ELSE
+         LET d == Decode(ops, m1.pc) IN
+         IF d.ty \in {"expectpanic", "unreachable"} THEN [m1 EXCEPT !.fault = d.ty]
+         ELSE IF d.ty = "bool"
+         THEN IF Len(m1.stack) >= MAX_DEPTH THEN [m1 EXCEPT !.fault = "depth"]
+              ELSE [m1 EXCEPT !.stack = Append(@, [op |-> m1.op, idx |-> m1.endIdx]),
+                              !.op = d.op, !.endIdx = d.idx, !.pc = @ + 1,
+                              !.maxd = IF Len(m1.stack) + 1 > @ THEN Len(m1.stack) + 1 ELSE @,
+                              !.steps = @ + 1]
          ELSE
-           LET d == Decode(ops, m1.pc) IN
-           IF d.ty \in {"expectpanic", "unreachable"} THEN [m1 EXCEPT !.fault = d.ty]
-           ELSE IF d.ty = "bool"
-           THEN IF Len(m1.stack) >= MAX_DEPTH THEN [m1 EXCEPT !.fault = "depth"]
-                ELSE RunM(ops, env,
-                          [m1 EXCEPT !.stack = Append(@, [op |-> m1.op, idx |-> m1.endIdx]),
-                                     !.op = d.op, !.endIdx = d.idx, !.pc = @ + 1], fuel - 1)
-           ELSE
-             LET pc1 == IF IsTwoWord(d) THEN m1.pc + 1 ELSE m1.pc
-                 r0 == Leaf(d, env)
-                 r == IF m1.op = "not" THEN ~r0 ELSE r0
-                 jump == (r /\ m1.op = "or") \/ (~r /\ m1.op \in {"and", "not"})
-             IN RunM(ops, env, [m1 EXCEPT !.ret = r,
-                                          !.pc = IF jump THEN m1.endIdx ELSE pc1 + 1], fuel - 1)
+           LET pc1 == IF IsTwoWord(d) THEN m1.pc + 1 ELSE m1.pc
+               r0 == IF v = "m_le" /\ d.ty = "lt"
+                     THEN (LET h == Nth(env.hk, d.n) IN h # <<>> /\ h[1].age < d.t)
+                     ELSE Leaf(d, env)
+               r == IF m1.op = "not" THEN ~r0 ELSE r0
+               jump == (r /\ m1.op = "or") \/ (~r /\ m1.op = "and")
+                       \/ (~r /\ m1.op = "not" /\ v # "m_nojump")
+           IN [m1 EXCEPT !.ret = r, !.steps = @ + 1, !.pc = IF jump THEN m1.endIdx ELSE pc1 + 1]
+\* `while current_index < len` is left, or `None => break` in the pop phase, or a panic
+Halted(ops, m) == m.fault # "" \/ m.pc >= Len(ops) \/ (m.pc >= m.endIdx /\ m.stack = <<>>)
+\* TLC note: 16 iterations per recursion level keep the Java stack shallow for 4095-opcode lists
+\* (a deep stack makes every garbage collection slow).
+StepH(ops, env, m, v) == IF Halted(ops, m) THEN m ELSE StepX(ops, env, m, v)
+Step4(ops, env, m, v) == StepH(ops, env, StepH(ops, env, StepH(ops, env, StepH(ops, env, m, v), v), v), v)
+Step16(ops, env, m, v) == Step4(ops, env, Step4(ops, env, Step4(ops, env, Step4(ops, env, m, v), v), v), v)
+RECURSIVE RunMX(_, _, _, _, _)
+RunMX(ops, env, m, fuel, v) ==
+  IF Halted(ops, m) THEN m
+  ELSE IF fuel <= 0 THEN [m EXCEPT !.fault = "nontermination"]
+  ELSE RunMX(ops, env, Step16(ops, env, m, v), fuel - 16, v)
+RunM(ops, env, m, fuel) == RunMX(ops, env, m, fuel, "code")
 
 RECURSIVE Unwind(_, _)
 Unwind(stack, ret) ==
@@ -152,14 +169,28 @@ Unwind(stack, ret) ==
   ELSE Unwind(SubSeq(stack, 1, Len(stack) - 1),
               IF stack[Len(stack)].op = "not" THEN ~ret ELSE ret)
 
-InitM(ops) == [pc |-> 0, endIdx |-> Len(ops), op |-> "or", ret |-> TRUE, stack |-> <<>>, fault |-> ""]
-\* result record [val, fault, depth]
-Run(ops, env) ==
-  LET m == RunM(ops, env, InitM(ops), 4 * Len(ops) + 8) IN
-  [val |-> Unwind(m.stack, m.ret), fault |-> m.fault]
+InitM(ops) == [pc |-> 0, endIdx |-> Len(ops), op |-> "or", ret |-> TRUE, stack |-> <<>>, fault |-> "",
+               maxd |-> 0, steps |-> 0]
+\* every loop iteration either consumes an opcode (pc grows) or pops a stack entry that an earlier
+\* iteration pushed while consuming an opcode: at most 2 * Len(ops) + 1 iterations.  The fuel is
+\* twice that; running out of it is reported as the fault "nontermination".
+Fuel(ops) == 4 * Len(ops) + 8
+\* result record [val, fault, depth (maximal operator-stack depth), steps (loop iterations)]
+RunX(ops, env, v) ==
+  LET m == RunMX(ops, env, InitM(ops), Fuel(ops), v) IN
+  [val |-> IF v = "m_unwind" THEN m.ret ELSE Unwind(m.stack, m.ret),
+   fault |-> m.fault, depth |-> m.maxd, steps |-> m.steps]
+Run(ops, env) == RunX(ops, env, "code")
 RunVal(ops, env) == Run(ops, env).val
 
 \* ----- Denote: what the documentation says ---------------------------------------
+\* documented resolution of key-timing thresholds (keyberon/src/action/switch.rs doc comments of
+\* new_ticks_since_*: "At 256 ticks or above ... a resolution of 8ms (rounded down). At 2304 ticks
+\* or above ... 128 ms (rounded down)"): exact to 255, steps of 8 from 255, steps of 128 from 2303.
+\* Written without reference to lossy_compress_ticks / lossy_decompress_ticks.
+Quant(t) == IF t <= 255 THEN t
+            ELSE IF t <= 2303 THEN 255 + ((t - 255) \div 8) * 8
+            ELSE 2303 + ((t - 2303) \div 128) * 128
 RECURSIVE Denote(_, _)
 Denote(e, env) ==
   CASE e.k = "key" -> \E i \in DOMAIN env.keys : env.keys[i] = e.kc
@@ -169,9 +200,7 @@ Denote(e, env) ==
     [] e.k = "keyhist" -> Len(env.hk) > e.n /\ env.hk[e.n + 1].e = e.kc
     \* documented resolution: exact to 255, 8 ms to 2303, 128 ms above (rounded down)
     [] e.k = "timing" ->
-         LET q == IF e.t <= 255 THEN e.t
-                  ELSE IF e.t <= 2303 THEN 255 + ((e.t - 255) \div 8) * 8
-                  ELSE 2303 + ((e.t - 2303) \div 128) * 128
+         LET q == Quant(e.t)
          IN Len(env.hk) > e.n /\ (IF e.cmp = "lt" THEN env.hk[e.n + 1].age <= q
                                   ELSE env.hk[e.n + 1].age > q)
     [] e.k = "input" -> \E i \in DOMAIN env.coords : env.coords[i] = <<e.x, e.y>>
@@ -192,4 +221,18 @@ FiringFrom(cases, i, env) ==
        ELSE FiringFrom(cases, i + 1, env)
 Firing(cases, env) == FiringFrom(cases, 1, env)
 AnyFault(cases, env) == \E i \in DOMAIN cases : Run(cases[i].ops, env).fault # ""
+
+\* L2 (from the documentation, independent of the opcode machinery and not recursive over the
+\* list): text-level cases : Seq([cond (list of expressions), ac, brk]).  Case i fires iff its
+\* condition is true and no earlier case was both true and `break`; firing actions in list order.
+CaseFires(tcases, i, env) ==
+  /\ DenoteCond(tcases[i].cond, env)
+  /\ \A j \in 1..(i - 1) : ~(DenoteCond(tcases[j].cond, env) /\ tcases[j].brk)
+FiringIdx(tcases, env) ==
+  LET idx == [i \in 1..Len(tcases) |-> i] IN SelectSeq(idx, LAMBDA i : CaseFires(tcases, i, env))
+DenoteCases(tcases, env) ==
+  LET f == FiringIdx(tcases, env) IN [i \in 1..Len(f) |-> tcases[f[i]].ac]
+\* the compiled form of a text-level case list (what the parser produces)
+CompileCases(tcases) ==
+  [i \in 1..Len(tcases) |-> [ops |-> Compile(tcases[i].cond), ac |-> tcases[i].ac, brk |-> tcases[i].brk]]
 =============================================================================
